@@ -21,7 +21,10 @@ from .corpus import CORPUS
 VERIF = os.path.dirname(os.path.dirname(os.path.dirname(os.path.abspath(__file__))))
 
 # refactorings the analysis does not follow (it answers ANALYSIS-ERROR, exit 2, on them -- never a VIOLATION): DESIGN 10.9
-UNHANDLED_REFACTORINGS = {}
+UNHANDLED_REFACTORINGS = {
+    "r13-3": "the three 'earliest with ties' scans are merged into one helper fed with generator expressions, have_event dispatches through a getattr table and "
+             "decide_next_event selects with min(key=...): the scan registry and the event-type configuration are not resolved through these (DESIGN 10.13)",
+}
 
 
 def _analyse(pid, root):
@@ -62,6 +65,8 @@ def run(pid, ctx):
         pf = os.path.join(rdir, name, "patch.diff")
         if os.path.exists(pf) and name not in UNHANDLED_REFACTORINGS:
             jobs.append(("refactoring %s" % name, "patch", pf, "S"))
+        elif os.path.exists(pf):
+            jobs.append(("refactoring %s (not followed)" % name, "patch", pf, "U"))       # must be undecided at worst: no finding the clean tree does not have
 
     def one(job):
         name, kind, arg, exp = job
@@ -90,6 +95,9 @@ def run(pid, ctx):
             if exp == "V":
                 ok = bool(keys - base)
                 why = "" if ok else "breaking variant not reported (rc=%d, errors=%s)" % (rc, errs[:1])
+            elif exp == "U":
+                ok = not (keys - base)
+                why = "" if ok else "a refactoring the analysis does not follow is reported as a violation: +%s" % sorted(keys - base)[:2]
             else:
                 ok = keys == base and not errs
                 why = "" if ok else "verdict changed on a preserving variant: +%s -%s errors=%s" % (sorted(keys - base)[:2], sorted(base - keys)[:2], errs[:1])
